@@ -35,17 +35,19 @@ type eQuery struct {
 	Debug bool      `json:"dbg,omitempty"` // run the collector pass with WithStepDetail/WithDumpEntries
 }
 type eCase struct {
-	Kind    string         `json:"kind"`   // kgroups | compact
-	Policy  string         `json:"policy"` // error | skip | panic
-	Configs map[int]string `json:"configs,omitempty"`
-	Parsers map[int]string `json:"parsers,omitempty"` // number | strhash | numrange (default holder FieldParser)
-	Docs    []eDoc         `json:"docs"`
-	Queries []eQuery       `json:"queries"`
-	Batch   int            `json:"batch,omitempty"`   // > 1: documents are handed to AddDocument in groups of up to Batch
-	Pre     []eDoc         `json:"pre,omitempty"`     // an earlier generation of the same builder: these documents are added, the index is built and dropped, the builder is Reset
-	Rebuild int            `json:"rebuild,omitempty"` // > 0: BuildIndex is also called after the first Rebuild documents (no Reset); the final build is the one queried
-	Dump    bool           `json:"dump,omitempty"`    // the debug dumps of the built index (DumpEntries, DumpIndexInfo: what PrintIndexEntries / PrintIndexInfo print) are called before the queries; they are also called when some query carries the debug options
-	Warm    int            `json:"warm,omitempty"`    // > 0: the builder has a cache provider (threshold = Warm values) that an EARLIER builder filled with the same documents: the queried index is built from the cache
+	Kind       string         `json:"kind"`   // kgroups | compact
+	Policy     string         `json:"policy"` // error | skip | panic
+	Configs    map[int]string `json:"configs,omitempty"`
+	Parsers    map[int]string `json:"parsers,omitempty"` // number | strhash | numrange (default holder FieldParser)
+	Docs       []eDoc         `json:"docs"`
+	Queries    []eQuery       `json:"queries"`
+	Batch      int            `json:"batch,omitempty"`        // > 1: documents are handed to AddDocument in groups of up to Batch
+	Pre        []eDoc         `json:"pre,omitempty"`          // an earlier generation of the same builder: these documents are added, the index is built and dropped, the builder is Reset
+	LateConfig []int          `json:"late_config,omitempty"`  // default-container fields declared with ConfigField AFTER the documents of the earlier generation went in (they introduced their fields on the fly) and before its Reset
+	PreNoBuild bool           `json:"pre_no_build,omitempty"` // ... an ABANDONED one: its feed failed, the caller Resets without ever building
+	Rebuild    int            `json:"rebuild,omitempty"`      // > 0: BuildIndex is also called after the first Rebuild documents (no Reset); the final build is the one queried
+	Dump       bool           `json:"dump,omitempty"`         // the debug dumps of the built index (DumpEntries, DumpIndexInfo: what PrintIndexEntries / PrintIndexInfo print) are called before the queries; they are also called when some query carries the debug options
+	Warm       int            `json:"warm,omitempty"`         // > 0: the builder has a cache provider (threshold = Warm values) that an EARLIER builder filled with the same documents: the queried index is built from the cache
 }
 
 func fieldName(f int) be.BEField { return be.BEField(fmt.Sprintf("f%d", f)) }
@@ -439,6 +441,17 @@ func execE2E(raw json.RawMessage) (res execResult, err error) {
 		}
 		return "IAddOk"
 	}
+	// the index of the earlier generation is KEPT: what it answers right after its build it must still answer when the
+	// builder has been Reset, fed and built again (compared Go-side at the end of the case)
+	var preIdx be.BEIndex
+	var preAns []string
+	defer func() {
+		if preIdx != nil {
+			if now := answersOf(preIdx, c.Queries); !reflect.DeepEqual(now, preAns) {
+				e2eViolations = append(e2eViolations, fmt.Sprintf("the index of an earlier generation (%s, ids %v) answers differently after its builder was Reset and built the next one: before %v, after %v", c.Kind, preIDs(c.Pre), preAns, now))
+			}
+		}
+	}()
 	var preObjs []*be.Document // the objects of the earlier generation, which the caller edits into the documents of this one
 	if len(c.Pre) > 0 {
 		for i := range c.Pre {
@@ -446,7 +459,15 @@ func execE2E(raw json.RawMessage) (res execResult, err error) {
 			preObjs = append(preObjs, o)
 			addOne(b, o)
 		}
-		safeCall(func() { b.BuildIndex() })
+		for _, f := range c.LateConfig {
+			b.ConfigField(fieldName(f), be.FieldOption{Container: be.HolderNameDefault})
+		}
+		if !c.PreNoBuild {
+			safeCall(func() { preIdx = b.BuildIndex() })
+			if preIdx != nil {
+				preAns = answersOf(preIdx, c.Queries)
+			}
+		}
 		b.Reset()
 	}
 	// buildDoc: document i of this generation.  On the re-executions with an earlier generation, the caller does not
@@ -527,4 +548,69 @@ func execE2E(raw json.RawMessage) (res execResult, err error) {
 	res.Dist = c.Kind + "/" + c.Policy
 	res.Summary = map[string]interface{}{"adds": obs.Adds, "results": obs.Results}
 	return
+}
+
+// lateConfigCases: a builder reused across generations.  The first generation's documents introduce fields on the fly,
+// then a further default-container field is DECLARED (ConfigField), then Reset; the next generation introduces other
+// on-the-fly fields, more of them than the first had, and uses the declared field next to them with EQUAL values in
+// conjunctions of one size: every field must keep posting lists of its own, whatever ids a Reset hands out
+func lateConfigCases(add func(in interface{})) {
+	iv := func(f int, n int64) eExpr { return eExpr{F: f, Inc: true, V: tvSlice("[]int", tvInt("int", n))} }
+	for _, kind := range []string{"kgroups", "compact"} {
+		for _, late := range [][]int{{2}, {2, 3}} {
+			c := eCase{Kind: kind, Policy: "error", LateConfig: late}
+			c.Pre = []eDoc{{ID: 100, Cons: []eConj{{iv(0, 3), iv(1, 3)}}}, {ID: 101, Cons: []eConj{{iv(1, 4)}}}}
+			// fields 4, 5, 6, 7 are new in this generation; 2 (and 3) were declared before the Reset
+			c.Docs = []eDoc{
+				{ID: 1, Cons: []eConj{{iv(4, 3)}}}, {ID: 2, Cons: []eConj{{iv(5, 3)}}}, {ID: 3, Cons: []eConj{{iv(6, 3)}}}, {ID: 4, Cons: []eConj{{iv(7, 3)}}},
+				{ID: 5, Cons: []eConj{{iv(2, 3)}}}, {ID: 6, Cons: []eConj{{iv(3, 3)}, {iv(2, 9), iv(4, 9)}}}, {ID: 7, Cons: []eConj{{iv(0, 3)}}},
+			}
+			for f := 0; f <= 7; f++ {
+				c.Queries = append(c.Queries, eQuery{A: []eAssign{{F: f, V: tvInt("int", 3)}}})
+			}
+			c.Queries = append(c.Queries, eQuery{A: []eAssign{{F: 2, V: tvInt("int", 9)}, {F: 4, V: tvInt("int", 9)}}}, eQuery{A: []eAssign{{F: 5, V: tvInt("int", 9)}, {F: 6, V: tvInt("int", 9)}}}, eQuery{})
+			add(c)
+		}
+	}
+}
+
+var e2eViolations []string // Go-side findings of the posting-list executor, reported with the check's extra violations
+
+func preIDs(ds []eDoc) []int64 {
+	var r []int64
+	for _, d := range ds {
+		r = append(r, d.ID)
+	}
+	return r
+}
+
+// answersOf: the sorted id list (or err / panic) and the sorted collector calls for every query
+func answersOf(index be.BEIndex, qs []eQuery) []string {
+	var out []string
+	for i := range qs {
+		var docs be.DocIDList
+		var err error
+		if safeCall(func() { docs, err = index.Retrieve(qs[i].build()) }) {
+			out = append(out, "panic")
+			continue
+		}
+		if err != nil {
+			out = append(out, "err")
+			continue
+		}
+		ids := docIDs(docs)
+		sort.Slice(ids, func(a, b int) bool { return ids[a] < ids[b] })
+		rec := &recCollector{}
+		safeCall(func() { index.RetrieveWithCollector(qs[i].build(), rec) })
+		sort.Slice(rec.hits, func(a, b int) bool {
+			for k := 0; k < 3; k++ {
+				if rec.hits[a][k] != rec.hits[b][k] {
+					return rec.hits[a][k] < rec.hits[b][k]
+				}
+			}
+			return false
+		})
+		out = append(out, fmt.Sprint(ids, rec.hits))
+	}
+	return out
 }
